@@ -21,7 +21,9 @@
    strip_elem is parameterised by the function that strips ONE options message:
      strip_opts        the code as it is in the pinned tree: top-level fields only, the
                        replacement is rebuilt from Range (unknown fields are not carried over)
-     strip_opts_fixed  the proposed repair: recursive, keeps unknown fields. *)
+     strip_opts_fixed  the proposed repair: recursive, keeps unknown fields
+   and by whether shallowCopy keeps the unknown fields of the descriptor message (it does not in
+   the pinned tree; the repair adds SetUnknown). *)
 From Coq Require Import List NArith Bool.
 Import ListNotations.
 Open Scope N_scope.
@@ -181,6 +183,8 @@ Definition strip_opts_fixed (g : N) (o : option omsg) (p : path) : option omsg *
 (* ---------------------------------------------------------------- the descriptor walk *)
 Section Walk.
   Variable so : N -> option omsg -> path -> option omsg * bool * list path.
+  (* shallowCopy: does the copy of a descriptor message keep its unknown fields *)
+  Variable ku : bool.
 
   (* strip...From<Kind> with stripOptionsFromAll inlined: p is the path of the element *)
   Fixpoint strip_elem (g : N) (p : path) (e : elem) {struct e} : elem * bool * list path :=
@@ -206,7 +210,7 @@ Section Walk.
            | _, _ => (ss, false, [])
            end) slots (schema k) in
       let dirty := och || sch in
-      (if dirty then Elem k (fresh g a) o' rest [] slots' else e, dirty, orem ++ srem)
+      (if dirty then Elem k (fresh g a) o' rest (if ku then unk else []) slots' else e, dirty, orem ++ srem)
     end.
 
   (* stripSourcePathsForSourceRetentionOptions *)
@@ -225,8 +229,8 @@ Section Walk.
     if dirty then (File e' (strip_sci g (f_sci f) rem), true) else (f, false).
 End Walk.
 
-Definition strip := strip_file strip_opts.
-Definition strip_fixed := strip_file strip_opts_fixed.
+Definition strip := strip_file strip_opts false.
+Definition strip_fixed := strip_file strip_opts_fixed true.
 
 (* ---------------------------------------------------------------- correspondence *)
 (* equality up to the names of fresh objects: an address below g must be the same address
